@@ -11,6 +11,10 @@ C18 — PE artifacts and version deduction
 Struct layouts (sizes, field offsets, signedness), machine constants and the DOS-stub markers come from
 `Gen/PeStruct.lean`, the version tables from `Gen/Version.lean` (both regenerated from the imported package).
 
+Names other properties rely on (keep stable): `findMzOffset findArchitecture findCompileStamps findMagicMz findMagicPe
+findStagePrependAppend` (over `PyFile`), `FileLike`, `pyFileLike`, `Generic.*` (the same six over any file-like state,
+e.g. the XorEncoded view), `parseVersion versionFor configVersion lookup`.
+
 Modelling notes
 * a compiled cstruct structure read is `buf = fh.read(size); if len(buf) != size: raise EOFError` (measured on
   dissect.cstruct 4.7: the optional headers do `read(96|112)` followed by 16 reads of 8 bytes, which on a Python
